@@ -55,6 +55,17 @@ fn main() {
 		out.write(dir).expect("write results");
 		return;
 	}
+	if args.len() >= 2 && args[1] == "probe-chunking" {
+		std::panic::set_hook(Box::new(|_| {}));
+		props::c09::probe_chunking();
+		return;
+	}
+	if args.len() >= 4 && args[1] == "probe-detect" {
+		// xtverif probe-detect <hex> <to>: detection and explicit/detected runs in both supply modes.
+		std::panic::set_hook(Box::new(|_| {}));
+		props::c09::probe(&util::unhex(&args[2]).expect("hex"), xtapi::Fmt::from_name(&args[3]).expect("format"), args.get(4).map(String::as_str));
+		return;
+	}
 	eprintln!("usage: xtverif run <Cnn> <quick|thorough> <seed> <outdir>");
 	std::process::exit(3);
 }
